@@ -326,6 +326,20 @@ func (R *Renderer) render(v ssa.Value) string {
 				}
 			}
 		}
+		if cl, ok := x.Tuple.(*ssa.Call); ok {
+			if h := cl.Call.StaticCallee(); h != nil {
+				if m, ok := resultAlias[h]; ok && x.Index < len(m) {
+					switch {
+					case m[x.Index] == -1:
+						return R.V(x.Tuple) // the baseline function's single result
+					case m[x.Index] >= 0:
+						return fmt.Sprintf("%s#%d", R.V(x.Tuple), m[x.Index])
+					default:
+						return fmt.Sprintf("%s#new%d", R.V(x.Tuple), x.Index)
+					}
+				}
+			}
+		}
 		return fmt.Sprintf("%s#%d", R.V(x.Tuple), x.Index)
 	case *ssa.Call:
 		return R.call(x)
@@ -370,6 +384,13 @@ func (R *Renderer) render(v ssa.Value) string {
 		}
 		if c := R.counter(x); c != "" {
 			return c
+		}
+		if init := descendingInit(x); init != nil {
+			// the same term whether the variable is used as an index or stored
+			return "(" + R.Lin(init).add(Lin{T: map[string]int64{"*": 1}}, -1).String() + ")"
+		}
+		if k, ok := inductionFrom(x); ok {
+			return fmt.Sprintf("*%d", k) // positions k, k+1, ... of a loop that starts at constant k > 0
 		}
 		var parts []string
 		for _, e := range x.Edges {
@@ -1315,6 +1336,34 @@ func (P *Prog) callTerm(fn string, args ...string) string {
 		return substParams(t.Value, args)
 	}
 	return fn + "(" + strings.Join(args, ",") + ")"
+}
+
+// inductionFrom: p is `for i := k; ...; i++` with a positive integer constant k and the
+// increment as the loop's post statement.
+func inductionFrom(p *ssa.Phi) (int64, bool) {
+	if !isIntType(p.Type()) || len(p.Edges) != 2 {
+		return 0, false
+	}
+	var k int64 = -1
+	var inc *ssa.BinOp
+	for _, e := range p.Edges {
+		if b, ok := e.(*ssa.BinOp); ok && b.Op == token.ADD && b.X == ssa.Value(p) {
+			if c, ok := b.Y.(*ssa.Const); ok && c.Value != nil && c.Value.String() == "1" {
+				inc = b
+				continue
+			}
+		}
+		if c, ok := e.(*ssa.Const); ok && c.Value != nil && c.Value.Kind() == constant.Int {
+			k = c.Int64()
+		}
+	}
+	if inc == nil || k <= 0 {
+		return 0, false
+	}
+	if len(inc.Block().Succs) != 1 || inc.Block().Succs[0] != p.Block() {
+		return 0, false
+	}
+	return k, true
 }
 
 // descendingInit: p is a loop variable `for i := init; ...; i--` (one initial value from outside
